@@ -57,15 +57,20 @@ def groups(tier):
                                  "ascon80pq_aead_*"],
                         expect_classes=["assertion"] + (["loop_invariant_step"] if lc else []),
                         note="BUFSIZ 48; chunk loop closed by loop contract; other loops (strlen, havoc) unwound with unwinding assertions"))
-    sums = [("hash", 1, 3)]
-    sums.append(("check", 1, 2))
+    # check mode: the first line's length is split into buckets (the groups run in parallel; together they cover 0..82)
+    sums = [("hash", 1, 3, None)]
+    for lo, hi in ((0, 40), (41, 65), (66, 70), (71, 76), (77, 82)):
+        sums.append(("check", 1, 2, (lo, hi)))
     if tier == "thorough":
-        sums.append(("check", 2, 2))
-    for op, lines, bufs in sums:
-        gs.append(Group("c19.asconsum.%s_file.lines%d" % (op, lines), ["C19"], "harness/h_asconsum.c", "h_asconsum", [],
-                        defs=["OP_" + op, "VERIF_LINES=%d" % lines, "VERIF_BUFS=%d" % bufs, "HAVE_GETOPT", "HAVE_GETOPT_H"],
+        for lo, hi in ((0, 65), (66, 74), (75, 82)):
+            sums.append(("check", 2, 2, (lo, hi)))
+    for op, lines, bufs, bucket in sums:
+        bd = ["VERIF_NMIN=%d" % bucket[0], "VERIF_NMAX=%d" % bucket[1]] if bucket else []
+        gs.append(Group("c19.asconsum.%s_file.lines%d%s" % (op, lines, ".n%d-%d" % bucket if bucket else ""), ["C19"], "harness/h_asconsum.c", "h_asconsum", [],
+                        defs=["OP_" + op, "VERIF_LINES=%d" % lines, "VERIF_BUFS=%d" % bufs, "HAVE_GETOPT", "HAVE_GETOPT_H"] + bd,
                         drop_unused=True, unwind=100, timeout=3000 if lines > 1 else 1500, kind="bounded",
-                        bound="BUFSIZ 16, files of fewer than %d buffers, %d checksum line(s) of up to 82 characters" % (bufs, lines),
+                        bound="BUFSIZ 16, files of fewer than %d buffers, %d checksum line(s) of up to 82 characters%s" %
+                              (bufs, lines, " (first line: %d..%d characters)" % bucket if bucket else ""),
                         functions=["hash_file", "check_file", "ascon_hash_file", "ascon_hasha_file", "ascon_xof_file", "ascon_xofa_file", "to_hex_digit"],
                         assumed=["fopen", "fread", "fgets", "ferror", "fclose", "ascon_hash_*", "ascon_xof_*"],
                         expect_classes=["assertion"]))
